@@ -26,7 +26,6 @@ OBLIGATION_MSGS = [
     "index out of bounds",
     "unreachable code may be reachable",
     "unreachable!() may be reachable",
-    "unwrap",  # e.g. "precondition not satisfied" variants already covered; kept for safety
     "loop invariant not satisfied",
     "possible truncation",
     "recursive call does not decrease",
@@ -121,7 +120,9 @@ def run(path: str, sections: list[Section], rlimit: int = 30, threads: int = 8, 
                     sec = s
         rec = {"section": sec.name if sec else "?", "kind": sec.kind if sec else "?", "origin": sec.origin if sec else "?",
                "message": msg, "line": ln, "rendered": rendered}
-        if any(m in msg for m in RLIMIT_MSGS) or any(m in rendered for m in RLIMIT_MSGS):
+        if "not supported" in msg or "does not yet support" in msg or "not yet support" in msg:
+            tool.append(rec)
+        elif any(m in msg for m in RLIMIT_MSGS) or any(m in rendered for m in RLIMIT_MSGS):
             rl.append(rec)
         elif any(m in msg for m in OBLIGATION_MSGS):
             failed.append(rec)
